@@ -231,9 +231,9 @@ def run_scenario(sc):
                         except asyncio.TimeoutError:
                             res["stop"] = {"t": loop.time() - t0, "returned": False}
                         net.ev("stop_ret", c=name, took=res["stop"]["t"], returned=res["stop"]["returned"])
-                        # later API calls must fail
+                        # later API calls must fail (probed only when asked: C19)
                         later = {}
-                        for nm, call in (("getone", lambda: c.getone()), ("getmany", lambda: c.getmany(timeout_ms=10)),
+                        for nm, call in [] if not (len(op) > 2 and op[2]) else (("getone", lambda: c.getone()), ("getmany", lambda: c.getmany(timeout_ms=10)),
                                          ("commit", lambda: c.commit())):
                             try:
                                 await asyncio.wait_for(call(), timeout=5.0)
